@@ -135,6 +135,22 @@ CLAIMED["C11"] = (
     "That lazyRefs implements resolve_inverse is established by the correspondence only. Trusted: harness, generator.",
     "DESIGN.md C11")
 
+CLAIMED["C19"] = (
+    "Rocq/Coq invariants and accept-iff theorems for ARRAY, BAG, SET over all operation sequences; LIST "
+    "refuted with witnesses; exhaustive short + random long sequences vs the Python runtime and an EXPRESS oracle",
+    "coq/PyAggr.v models the four classes of AggregationDataTypes.py line by line (base type INTEGER). "
+    "coq/Properties_C19.v proves (axiom-free), for every bound pair, flag setting and operation sequence: ARRAY keeps "
+    "exactly b2-b1+1 slots indexed b1..b2, an assignment is accepted iff index in range, value of the base type and "
+    "(UNIQUE) different from every other element, what was stored is read back and nothing else changes, unset "
+    "elements are readable only when OPTIONAL; BAG/SET never exceed the upper bound, hold only base-type values, a "
+    "BAG accepts iff typed and room left, a SET never holds duplicates. LIST is refuted (c19_list_refuted) and "
+    "recorded as two open findings. The model is tied to the code by running ALL constructor x operation sequences "
+    "of length 2 (quick) / 3 (thorough) plus random long ones on the real classes and comparing every result and "
+    "exception; an independent list/multiset/set reference of ISO 10303-11 8.2 judges the implementation.",
+    "Trusted: CPython list/set, harness/py_aggr_driver.py, the reference oracle. Base types other than INTEGER and "
+    "nested aggregates are not modelled.",
+    "DESIGN.md C19")
+
 NOT_APPLICABLE = {}
 
 ALL = ["C%02d" % i for i in range(1, 21)]
